@@ -132,6 +132,8 @@ pub struct SinkSt {
     pub closed: bool,
     pub failed: Option<u64>,
     pub blocked: bool,
+    /// the operation whose Pending answer blocked the sink
+    pub blocked_on: Option<Op>,
     pub waker: Option<Waker>,
     pub ready_ok: bool,
     pub first_touch: Option<Touch>,
@@ -177,6 +179,10 @@ pub struct World {
     pub ch: Chooser,
     pub probe: bool,
     pub faults: bool,
+    /// "ready-gated" sinks: a sink that refused poll_ready still completes flush/close at once
+    /// while it holds nothing unflushed (a bounded-channel-like sink; the default models a framed
+    /// writer, whose refusal of poll_ready implies unflushed data and a pending flush)
+    pub gate: bool,
     pub ev: Vec<Ev>,
     pub sinks: Vec<SinkSt>,
     pub streams: Vec<StreamSt>,
@@ -207,6 +213,7 @@ impl World {
             ch,
             probe: false,
             faults,
+            gate: false,
             ev: Vec::new(),
             sinks: Vec::new(),
             streams: Vec::new(),
@@ -251,6 +258,7 @@ impl World {
             closed: false,
             failed: None,
             blocked: false,
+            blocked_on: None,
             waker: None,
             ready_ok: false,
             first_touch: None,
@@ -307,7 +315,8 @@ impl World {
                     | (s.blocked as u64) << 2
                     | (s.first_touch.is_some() as u64) << 3
                     | (s.sent_at.is_some() as u64) << 4
-                    | (s.dropped_at.is_some() as u64) << 5,
+                    | (s.dropped_at.is_some() as u64) << 5
+                    | ((self.gate && s.blocked && s.blocked_on == Some(Op::Ready)) as u64) << 6,
             );
         }
         for s in &self.streams {
@@ -533,6 +542,15 @@ impl MockSink {
             g.sinks[id].contract.get_or_insert_with(|| format!("{op:?} after a completed close"));
         }
         if g.sinks[id].blocked {
+            let gated_through = g.gate && g.sinks[id].blocked_on == Some(Op::Ready) && op != Op::Ready && g.sinks[id].flushed == g.sinks[id].accepted.len();
+            if gated_through {
+                if op == Op::Close && !g.sinks[id].closed {
+                    g.sinks[id].closed = true;
+                    g.progress += 1;
+                }
+                g.ev.push(Ev::Sink(id, op, Res::Ok, "nothing to flush (not ready for more)".into()));
+                return Poll::Ready(Ok(()));
+            }
             g.sinks[id].waker = Some(cx.waker().clone());
             g.sink_pending_in_poll = true;
             g.ev.push(Ev::Sink(id, op, Res::Pending, "still blocked".into()));
@@ -563,6 +581,7 @@ impl MockSink {
             }
             1 => {
                 g.sinks[id].blocked = true;
+                g.sinks[id].blocked_on = Some(op);
                 g.sinks[id].waker = Some(cx.waker().clone());
                 g.sink_pending_in_poll = true;
                 g.ev.push(Ev::Sink(id, op, Res::Pending, Txt::None));
